@@ -1,6 +1,7 @@
 package main
 
 import (
+	"golang.org/x/tools/go/ssa"
 	"bufio"
 	"encoding/json"
 	"fmt"
@@ -53,6 +54,64 @@ type expectedFile struct {
 	Property    string   `json:"property"`
 	Obligations []string `json:"obligations"` // "unit::name" discharged on the unchanged tree
 	Units       []string `json:"units"`
+	// names of parameters and local variables of each unit on the reference tree, by
+	// position: a contract that mentions a name the function no longer declares is
+	// re-bound to the variable now at that position (same type) - a pure rename is
+	// not a reason to stop verifying, let alone to raise an alarm
+	Names map[string]nameHints `json:"names,omitempty"`
+}
+
+type nameHints struct {
+	Params   []string    `json:"params,omitempty"`
+	FreeVars []string    `json:"free_vars,omitempty"`
+	Locals   []localHint `json:"locals,omitempty"`
+}
+
+type localHint struct {
+	Name string `json:"name"`
+	Type string `json:"type"`
+	Ord  int    `json:"ord"`
+}
+
+// namedLocals: the named local variables of fn in source order.
+func namedLocals(fn *ssa.Function) []*ssa.Alloc {
+	var out []*ssa.Alloc
+	add := func(a *ssa.Alloc) {
+		switch a.Comment {
+		case "", "complit", "rangeindex", "varargs", "slicelit", "makeslice", "new", "defer$stack", "rangeiter":
+			return
+		}
+		if strings.ContainsAny(a.Comment, "$. ") || !a.Pos().IsValid() {
+			return
+		}
+		out = append(out, a)
+	}
+	for _, a := range fn.Locals {
+		add(a)
+	}
+	for _, b := range fn.Blocks {
+		for _, in := range b.Instrs {
+			if a, ok := in.(*ssa.Alloc); ok && a.Heap {
+				add(a)
+			}
+		}
+	}
+	sort.SliceStable(out, func(i, j int) bool { return out[i].Pos() < out[j].Pos() })
+	return out
+}
+
+func hintsOf(fn *ssa.Function) nameHints {
+	var h nameHints
+	for _, p := range fn.Params {
+		h.Params = append(h.Params, p.Name())
+	}
+	for _, fv := range fn.FreeVars {
+		h.FreeVars = append(h.FreeVars, fv.Name())
+	}
+	for i, a := range namedLocals(fn) {
+		h.Locals = append(h.Locals, localHint{a.Comment, ptrElem(a.Type()).String(), i})
+	}
+	return h
 }
 
 func loadExpected(path string) *expectedFile {
@@ -302,8 +361,31 @@ func report(o *Options, res *runResult, smtDir string, wall time.Duration) int {
 				ef.Obligations = append(ef.Obligations, ob.Unit+"::"+ob.Name)
 			}
 		}
+		ef.Names = map[string]nameHints{}
+		var addHints func(fn *ssa.Function)
+		addHints = func(fn *ssa.Function) {
+			ef.Names[funcKey(fn)] = hintsOf(fn)
+			for _, an := range fn.AnonFuncs {
+				addHints(an)
+			}
+		}
 		for _, u := range res.units {
 			ef.Units = append(ef.Units, u.name)
+			if u.fn != nil {
+				addHints(u.fn)
+			}
+		}
+		// contracted functions of /repo that the units call
+		if res.prog != nil {
+			for key, ct := range res.specs.Contracts {
+				if ct.Kind == "func" && !ct.Extern {
+					if fn := res.prog.funcs[key]; fn != nil {
+						if _, done := ef.Names[key]; !done {
+							addHints(fn)
+						}
+					}
+				}
+			}
 		}
 		sort.Strings(ef.Obligations)
 		sort.Strings(ef.Units)
